@@ -81,6 +81,9 @@ func VerifC20BPE(maxLen int, withSpecial int) {
 	vocab, special := vfBPEVocab(withSpecial != 0)
 	bpe := BytePairEncoding{vocab: vocab}
 	s := verifNondetString("text", maxLen)
+	if withSpecial == 2 { // two occurrences of the control token's literal around the symbolic part
+		s = vfSpecialLit + s + vfSpecialLit
+	}
 	verifAssume(utf8.ValidString(s) && !strings.Contains(s, "\x00"))
 	ids, err := bpe.Encode(s, false)
 	verifAssert(err == nil, "encode-succeeds")
@@ -90,6 +93,17 @@ func VerifC20BPE(maxLen int, withSpecial int) {
 	verifReach("encoded")
 	for _, id := range ids {
 		verifAssert(id >= 0 && int(id) < len(vocab.Values), "id-inside-vocabulary")
+	}
+	if withSpecial == 2 {
+		n := 0
+		for _, id := range ids {
+			if id == special {
+				n++
+			}
+		}
+		verifAssert(n == 2, "every-occurrence-of-the-special-literal-encodes-to-the-special-id")
+		verifReach("special-seen")
+		return
 	}
 	if special >= 0 {
 		// maxLen < 2*len(literal): at most one occurrence
